@@ -299,6 +299,15 @@ def run(facts, rep, ctx):
     except PathLimit:
         rep.inconc(R1, "reader: too many paths")
         return
+    # the set loop does not leave while a minimal set (its main flag word alone: 4 bytes) is still ahead
+    from posloop import position_exit
+    stops, undec, npos = position_exit(rd, 4)
+    if stops:
+        rep.violation(R1, rd.name, "stops-early", "the set loop leaves on `%s` with the cursor at %d of %d bytes: a set that consists of its main flag word alone (every group absent) is still there and is never read" % (stops[0], stops[1], stops[1] + 4), rw)
+    elif undec:
+        rep.inconc(R1, "from_archive: a loop condition on the cursor position was not evaluated (%s)" % undec)
+    elif npos:
+        rep.ok(R1, {"set_loop": "continues while any byte is ahead", "position_conditions": npos})
     # every trip round the set loop stores one set: a path back to the loop head that pushed nothing drops a set
     def head_cond(h):
         x_ = h
